@@ -23,7 +23,7 @@ def nontrivial(req, ans):
     k = req.split(" ", 1)[0]
     if k == "ranges":
         return ans.startswith("ok") and len(ans.split()) > 4      # at least two pieces
-    if k == "condrun" and ans.startswith("ok"):
+    if k in ("condrun", "condrun2") and ans.startswith("ok"):
         # the gate reached some shots and left others alone
         try:
             seg = [s.split() for s in req.split("|")]
